@@ -97,6 +97,8 @@ pub struct Scenario {
     pub in_pre_start: Vec<usize>,
     pub clients: Vec<Vec<COp>>,
     pub post_stop_yield: bool,
+    /// post_stop sleeps this long (virtual ms) before it returns: the target stays Stopping meanwhile
+    pub post_stop_sleep: u64,
     /// the target is created with spawn_linked_instant: clients get its reference while it is still Unstarted
     pub instant: bool,
     pub horizon: u64,
@@ -207,6 +209,11 @@ impl Actor for Probe {
         if self.sc.post_stop_yield {
             yield_once().await;
         }
+        if self.sc.post_stop_sleep > 0 {
+            ractor::concurrency::sleep(Duration::from_millis(self.sc.post_stop_sleep)).await;
+        }
+        // only reached when no kill interrupted post_stop
+        obs("obs.post_stop_end", "tg", 0, vec![]);
         Ok(())
     }
 }
@@ -312,7 +319,7 @@ async fn client(sc: Arc<Scenario>, w: W, ops: Vec<COp>) {
 /// labels kept whoever emitted them
 const KEEP_OBS: &[&str] = &[
     "obs.instant", "obs.create", "obs.abort", "obs.finished", "obs.join", "obs.stop", "obs.kill", "obs.drain", "obs.send", "obs.handled", "obs.busy",
-    "obs.stall", "obs.busy_end", "obs.fail", "obs.post_stop", "obs.sup",
+    "obs.stall", "obs.busy_end", "obs.fail", "obs.post_stop", "obs.post_stop_end", "obs.sup",
 ];
 /// internal points kept when they concern the target actor
 const KEEP_TG: &[&str] = &["port.msg", "port.stop", "port.drain", "sig.handled", "guard.cleanup"];
@@ -445,6 +452,7 @@ pub fn micro_scenarios() -> Vec<Scenario> {
             in_pre_start: vec![],
             clients: vec![vec![Create(0), Create(1), Create(2), Join(0), Join(1), Join(2)], vec![Sleep(5), Stop]],
             post_stop_yield: true,
+            post_stop_sleep: 0,
             instant: false,
             horizon: 17,
         },
@@ -456,6 +464,7 @@ pub fn micro_scenarios() -> Vec<Scenario> {
                 vec![Create(0), Create(1), Create(2), Create(3), Sleep(4), Abort(0), Sleep(1), Abort(1), Abort(3), Sleep(1), Abort(2), Join(0), Join(1), Join(2), Join(3)],
             ],
             post_stop_yield: false,
+            post_stop_sleep: 0,
             instant: false,
             horizon: 13,
         },
@@ -465,6 +474,7 @@ pub fn micro_scenarios() -> Vec<Scenario> {
             in_pre_start: vec![],
             clients: vec![vec![Create(0), Create(1), Sleep(3), Create(2), Join(0), Join(2)], vec![Sleep(5), Kill, Finished(1)]],
             post_stop_yield: false,
+            post_stop_sleep: 0,
             instant: false,
             horizon: 9,
         },
@@ -474,6 +484,7 @@ pub fn micro_scenarios() -> Vec<Scenario> {
             in_pre_start: vec![],
             clients: vec![vec![Create(0), Create(1), Create(2), Create(3), Join(0), Join(3), Join(1)], vec![Sleep(2), Create(4), Join(4)]],
             post_stop_yield: true,
+            post_stop_sleep: 0,
             instant: false,
             horizon: 8,
         },
@@ -483,6 +494,7 @@ pub fn micro_scenarios() -> Vec<Scenario> {
             in_pre_start: vec![],
             clients: vec![vec![Create(0), Create(1), Create(2), Join(0), Join(1), Join(2)], vec![Sleep(5), Drain]],
             post_stop_yield: false,
+            post_stop_sleep: 0,
             instant: false,
             horizon: 14,
         },
@@ -491,6 +503,7 @@ pub fn micro_scenarios() -> Vec<Scenario> {
             in_pre_start: vec![],
             clients: vec![vec![Create(0), Create(1), Create(2), Join(0), Join(1), Join(2)], vec![Sleep(5), SendFail]],
             post_stop_yield: false,
+            post_stop_sleep: 0,
             instant: false,
             horizon: 14,
         },
@@ -500,8 +513,29 @@ pub fn micro_scenarios() -> Vec<Scenario> {
             in_pre_start: vec![],
             clients: vec![vec![SendBusy(10), Create(0), Create(1), Create(2), Join(1), Join(0)], vec![Sleep(9), Finished(0), Sleep(4), Finished(0)]],
             post_stop_yield: false,
+            post_stop_sleep: 0,
             instant: false,
             horizon: 20,
+        },
+        // a slow post_stop: the target is Stopping when kill_after expires (a graceful stop with a hard-kill watchdog)
+        Scenario {
+            timers: vec![t(K::Exit, 3, Via::Cell), t(K::Kill, 9, Via::Ref), t(K::Interval, 2, Via::Cell)],
+            in_pre_start: vec![],
+            clients: vec![vec![Create(0), Create(1), Create(2), Join(0), Join(1), Join(2)], vec![Sleep(9), Finished(1)]],
+            post_stop_yield: true,
+            post_stop_sleep: 20,
+            instant: false,
+            horizon: 30,
+        },
+        // stop(), then kill_after armed while the target is already Stopping; and a kill that comes too late
+        Scenario {
+            timers: vec![t(K::Kill, 4, Via::Cell), t(K::Kill, 30, Via::Derived), t(K::After, 6, Via::Cell)],
+            in_pre_start: vec![],
+            clients: vec![vec![Sleep(2), Stop, Sleep(1), Create(0), Create(2), Join(0), Join(2)], vec![Create(1), Join(1)]],
+            post_stop_yield: false,
+            post_stop_sleep: 12,
+            instant: false,
+            horizon: 40,
         },
         // timers the actor arms on itself in pre_start
         Scenario {
@@ -509,6 +543,7 @@ pub fn micro_scenarios() -> Vec<Scenario> {
             in_pre_start: vec![0, 1, 2, 3],
             clients: vec![vec![Sleep(10), Finished(0), Finished(2), Finished(3)]],
             post_stop_yield: true,
+            post_stop_sleep: 0,
             instant: false,
             horizon: 18,
         },
@@ -520,7 +555,7 @@ pub fn micro_scenarios() -> Vec<Scenario> {
 pub fn stall_scenarios() -> Vec<Scenario> {
     use COp::*;
     use Kind as K;
-    let sc = |timers: Vec<TimerSpec>, clients: Vec<Vec<COp>>, horizon: u64| Scenario { timers, in_pre_start: vec![], clients, post_stop_yield: false, instant: false, horizon };
+    let sc = |timers: Vec<TimerSpec>, clients: Vec<Vec<COp>>, horizon: u64| Scenario { timers, in_pre_start: vec![], clients, post_stop_yield: false, post_stop_sleep: 0, instant: false, horizon };
     vec![
         // a client stalls from 7 to 19: ticks 10 and 15 are missed (9 and 4 ms late), 20.. must be on time again
         sc(vec![t(K::Interval, 5, Via::Cell), t(K::After, 12, Via::Ref)], vec![vec![Create(0), Create(1), Sleep(7), Stall(12), Join(1)]], 43),
@@ -545,6 +580,7 @@ pub fn exhaustive_scenarios() -> Vec<Scenario> {
             in_pre_start: vec![0, 1, 2],
             clients: vec![],
             post_stop_yield: false,
+            post_stop_sleep: 0,
             instant: false,
             horizon: 7,
         },
@@ -553,6 +589,7 @@ pub fn exhaustive_scenarios() -> Vec<Scenario> {
             in_pre_start: vec![0, 1, 2],
             clients: vec![],
             post_stop_yield: false,
+            post_stop_sleep: 0,
             instant: false,
             horizon: 4,
         },
@@ -569,6 +606,7 @@ pub fn instant_scenarios() -> Vec<Scenario> {
             in_pre_start: vec![],
             clients: vec![vec![Create(0), Create(1), Sleep(11), Finished(0), Stop]],
             post_stop_yield: false,
+            post_stop_sleep: 0,
             instant: true,
             horizon: 19,
         },
@@ -577,6 +615,7 @@ pub fn instant_scenarios() -> Vec<Scenario> {
             in_pre_start: vec![],
             clients: vec![vec![Create(0), Create(2)], vec![Create(1), Sleep(2), Finished(0), Finished(1)]],
             post_stop_yield: false,
+            post_stop_sleep: 0,
             instant: true,
             horizon: 6,
         },
@@ -729,7 +768,7 @@ pub fn rand_scenario(rng: &mut Rng) -> Scenario {
         clients.push(c);
     }
     let horizon = if fast { 13 } else { 133 };
-    Scenario { timers, in_pre_start, clients, post_stop_yield: rng.chance(1, 2), instant: false, horizon }
+    Scenario { timers, in_pre_start, clients, post_stop_yield: rng.chance(1, 2), post_stop_sleep: [0, 0, 0, 2, 6][rng.below(5)], instant: false, horizon }
 }
 
 pub fn batch(out: &str, tier: &str, seed: u64) -> Value {
